@@ -992,6 +992,31 @@ def f_count_nonzero(a, axis=None, **kw):
     return along_axis(a, axis, lambda xs: l_sum([_ite(e if _isboolish(e) else (e != 0), 1, 0) for e in xs]))
 
 
+def f_searchsorted(a, v, side="left", sorter=None):
+    """Insertion index in an ascending array without NaN: the number of elements
+    < v (left) or <= v (right), as a symbolic count (no fork)."""
+    _used("searchsorted")
+    if sorter is not None:
+        raise Unsupported("np.searchsorted with sorter=")
+    xs = list(to_obj(a).reshape(-1))
+    if bool(l_any_nan(xs)):
+        raise Unsupported("np.searchsorted in an array with NaN")
+    op = np.less if side == "left" else np.less_equal
+
+    def one(val):
+        if bool(l_isnan(val)):
+            return len(xs)        # NaN sorts after everything
+        return l_sum([_ite(elem_apply(op, e, val), 1, 0) for e in xs])
+    vv = to_obj(v)
+    if vv.ndim == 0:
+        return one(vv[()])
+    out = np.empty(vv.shape, dtype=object)
+    of, vf = out.reshape(-1), vv.reshape(-1)
+    for i in builtins_range(vf.shape[0]):
+        of[i] = one(vf[i])
+    return out.view(SymArray)
+
+
 def f_nan_to_num(x, copy=True, nan=0.0, posinf=None, neginf=None):
     _used("nan_to_num")
     big = np.finfo(float).max
@@ -1189,6 +1214,7 @@ HANDLERS = {
     np.any: f_any, np.all: f_all, np.count_nonzero: f_count_nonzero,
     np.nan_to_num: f_nan_to_num, np.histogram: f_histogram, np.corrcoef: f_corrcoef,
     np.round: f_round, np.around: f_round, np.array_equal: f_array_equal, np.copy: f_copy,
+    np.searchsorted: f_searchsorted,
 }
 
 PASS_THROUGH = {
